@@ -37,8 +37,8 @@ ASSUMPTIONS = ['a refusal is any raised exception; to_mnemonic refusing entropy 
                'sentences are written with U+0020 (library style); U+3000 separators are judged only as an input spelling',
                'Mnemonic(lang) is used with the language of the sentence; HDKey.from_passphrase has no language parameter',
                'only checksummed sentences (add_checksum/includes_checksum defaults) are judged']
-EXHAUSTIVE = ['all 2047 single-word substitutions at each sampled (sentence, position); quick: all 12 positions of one '
-              'sentence + 4 positions in other languages; thorough: all positions of 12 sentences']
+EXHAUSTIVE = ['all 2047 single-word substitutions at each sampled (sentence, position): quick = all 12 positions of one '
+              'sentence (plus every 4th alternative at 4 positions in other languages); thorough = all positions of 12 sentences']
 
 K_PASS_NFKD = 'C14/to_seed/passphrase-not-nfkd'
 K_FROMPASS_LANG = 'C14/from_passphrase/non-english-sentence-refused'
@@ -373,13 +373,13 @@ def _outside_words(lang, rnd, base_word):
     return [w for w in out if ref.nfkd(w) not in ws and ' ' not in w and w]
 
 
-def chk_subst_position(lang, ent, pos, col, rnd, seed_every=97):
+def chk_subst_position(lang, ent, pos, col, rnd, seed_every=97, step=1):
     from bitcoinlib.mnemonic import Mnemonic
     words = wordlist(lang)
     base = ref.to_mnemonic(ent, words).split(' ')
     m = Mnemonic(lang)
     for i, w in enumerate(words):
-        if w == base[pos]:
+        if w == base[pos] or (step > 1 and i % step != pos % step):
             continue
         chk_subst_one(lang, ent, pos, w, col, m=m, widx=i, also_seed=(i % seed_every == pos))
     for w in _outside_words(lang, rnd, base[pos]):
@@ -440,7 +440,7 @@ def replay(case, col):
 def plan(tier, seed, scale=1.0):
     thorough = tier == 'thorough'
     nshard = 16
-    n_ent = int((20000 if thorough else 640) * scale)
+    n_ent = int((20000 if thorough else 560) * scale)
     n_sent = max(1, int((12 if thorough else 1) * scale))
     extra_units = 0 if thorough else 4
     specs = []
@@ -451,7 +451,8 @@ def plan(tier, seed, scale=1.0):
 
 
 def _subst_units(spec):
-    """Deterministic (per seed) list of (lang, nbytes, entropy, pos) units, identical in every shard; striped by index."""
+    """Deterministic (per seed) list of (lang, entropy, pos, step) units, identical in every shard; striped by index.
+    step 1 = all 2047 alternatives, step 4 = every fourth alternative (quick-tier extras in other languages)."""
     rnd = random.Random('%s-%d-units' % (ID, spec['seed']))
     langs = languages()
     rnd.shuffle(langs)
@@ -464,13 +465,13 @@ def _subst_units(spec):
         positions = list(range(nwords)) if nwords == 12 else sorted(rnd.sample(range(nwords), 11) + [nwords - 1])[:12]
         positions = sorted(set(positions))
         for p in positions:
-            units.append((lang, ent, p))
+            units.append((lang, ent, p, 1))
     for j in range(spec['extra_units']):
         lang = langs[(spec['n_sentences'] + j) % len(langs)]
         nbytes = [16, 32, 20, 24][j % 4]
         ent = rnd.randbytes(nbytes)
         nwords = nbytes * 3 // 4
-        units.append((lang, ent, [nwords - 1, 0, rnd.randrange(nwords), rnd.randrange(nwords)][j % 4]))
+        units.append((lang, ent, [nwords - 1, 0, rnd.randrange(nwords), rnd.randrange(nwords)][j % 4], 4))
     return units
 
 
@@ -505,6 +506,6 @@ def run_shard(spec, col):
     chk_generate(langs[sh % len(langs)], [128, 160, 192, 224, 256][(sh // len(langs) + spec['seed']) % 5], col)
     # -- substitution units striped over shards
     units = _subst_units(spec)
-    for u, (lang, ent, pos) in enumerate(units):
+    for u, (lang, ent, pos, step) in enumerate(units):
         if u % ns == sh:
-            chk_subst_position(lang, ent, pos, col, rnd)
+            chk_subst_position(lang, ent, pos, col, rnd, step=step)
